@@ -215,5 +215,45 @@ return (r1 == r2), "same"
 """, covers=("same",), pre=POOLPRE + VALPRE, timeout=120, prelude=PRELUDE, functions=FUNCS, bounds=BOUNDS))
 
 
+HIST = """
+vi, ui = conc(vi, 7), conc(ui, 7)
+MENU = (True, 1.0, False, 0.0, 1, 0, -0.0, "1")
+with notrace():          # concrete menu members; real functools caches (the job runs with real_lru_cache)
+    reset_module_state()
+    r1 = represent(from_native({{"k": MENU[vi], "l": [MENU[vi]]}}))
+    ok1 = ok_validate(from_native(MENU[vi]), MENU[vi])
+    reset_module_state()
+    from_native(MENU[ui])
+    substitute(schema.dict, {{"x": MENU[ui]}})
+    r2 = represent(from_native({{"k": MENU[vi], "l": [MENU[vi]]}}))
+    ok2 = ok_validate(from_native(MENU[vi]), MENU[vi])
+return (r1 == r2 and ok1 and ok2), "same"
+"""
+
+REPR_HIST = """
+A, B, C, D, E = pool(p, n, al, x, rel)
+inner = schema.dict({"a": A, "b": schema.list([B, ...])})
+outer = schema.dict({"o": inner, "l": schema.list([inner])})
+fresh_inner = represent(schema.dict({"a": A, "b": schema.list([B, ...])}))
+fresh_outer = represent(schema.dict({"o": schema.dict({"a": A, "b": schema.list([B, ...])}), "l": schema.list([schema.dict({"a": A, "b": schema.list([B, ...])})])}))
+if first:
+    t1 = represent(inner)
+    t2 = represent(outer)
+else:
+    t2 = represent(outer)
+    t1 = represent(inner)
+try:
+    inner({})
+except DeclarationError:
+    pass
+return (t1 == fresh_inner and t2 == fresh_outer and represent(inner) == fresh_inner and represent(outer) == fresh_outer), "same"
+"""
+
+
 def harnesses(tier, seed, active_kf=()):
-    return list(H)
+    out = list(H)
+    out.append(mk("C07.history.from_native", "vi: int, ui: int", HIST.replace("{{", "{").replace("}}", "}"), covers=("same",),
+                  pre=["0 <= vi <= 7", "0 <= ui <= 7"], timeout=120, functions=FUNCS, bounds=BOUNDS, meta={"real_lru_cache": True}))
+    out.append(mk("C07.history.represent", POOLP + ", first: bool", REPR_HIST, covers=("same",), pre=POOLPRE, timeout=120,
+                  functions=FUNCS, bounds=BOUNDS))
+    return out
